@@ -2,7 +2,8 @@
 \* Full = FALSE: greeting classes with the default request and request classes with the default greeting;
 \* Full = TRUE: their full product.  DLens: 7 stands for the class "mid" (3..254, swept by the driver).
 \* CutChunkings: quick tier drops "msg" for truncated messages (thorough: all four).
-\* Greedy = {} and UdpMinLen = 7 describe a conforming tree; Socks5_dev.cfg sets the deviations.
+\* Greedy = {}, UdpMinLen = 7, PlainJoin = {} and NetipText = {} describe a conforming tree; Socks5_dev.cfg sets the deviations,
+\* Socks5_show_netiptext.cfg exhibits the broken round trip.  ValClasses: the address value classes of Socks5Ref are enumerated.
 CONSTANTS
   Emit = @@EMIT@@
   Profiles = {"listener", "adapter", "adapterauth"}
@@ -14,8 +15,10 @@ CONSTANTS
   CutChunkings = @@CUTCH@@
   WithUdp = TRUE
   PlainJoin = {}
+  NetipText = {}
+  ValClasses = TRUE
 INIT Init
 NEXT Next
-INVARIANTS TypeOK Conforms NoDev NoReadPast ExpectFixed UdpRoundTrip DoneIsFinal HostPort
+INVARIANTS TypeOK Conforms NoDev NoReadPast ExpectFixed UdpRoundTrip ImplRoundTrip DoneIsFinal HostPort
 PROPERTIES StepsAdvance
 CHECK_DEADLOCK TRUE
